@@ -2,5 +2,6 @@ package main
 
 // One blank import per engine package; each registers its checks in init().
 import (
+	_ "verif/harness/placelab"
 	_ "verif/harness/smlab"
 )
